@@ -3,6 +3,7 @@ import SciVerif.Lemmas.C10c
 import SciVerif.Lemmas.C10g
 import SciVerif.Lemmas.C10i
 import SciVerif.Lemmas.C10j
+import SciVerif.Lemmas.C10k
 import SciVerif.Facts.C10Table
 
 /-!
@@ -128,6 +129,29 @@ theorem C10_mul {α : Type} [Semiring α] (a : Comps α) (ha : (keys a).Nodup) (
   refine ⟨?_, hk⟩
   rw [cget_eq_total _ _ (by rw [hk]; exact ha), total_cmul, cget_eq_total _ _ ha]
 
+/-! ## Composites as objects: operands are never changed -/
+
+/-- In the object store (component objects in cells, `Composite.add` updating `proportion` in
+    place), for a store without shared component objects: `a + b` creates a new composite whose
+    dict is `_add`'s value, and **whatever is added to that sum afterwards** (`add()` any number of
+    times), the operands `a`, `b` and every other composite read exactly as before, while the sum
+    reads as the value semantics says. -/
+theorem C10_frame (h : Heap) (hw : h.WF) (i j : Nat) (hi : i < h.nobj) (hj : j < h.nobj)
+    (adds : Comps Rat) :
+    let h' := (h.plus i j).addAll h.nobj adds
+    h'.WF ∧ h'.read h.nobj = caddAll (cplus (h.read i) (h.read j)) adds ∧
+      ∀ m, m ≠ h.nobj → h'.read m = h.read m := by
+  obtain ⟨w, n, r, f⟩ := plus_spec h hw i j hi hj
+  obtain ⟨w2, _, r2, f2⟩ := addAll_spec adds (h.plus i j) w h.nobj (by rw [n]; omega)
+  exact ⟨w2, by rw [r2, r], fun m hm => by rw [f2 m hm, f m hm]⟩
+
+/-- `add()` on one composite is `Composite.add` on its dict and changes no other composite;
+    the store stays free of shared component objects. -/
+theorem C10_store_add (h : Heap) (hw : h.WF) (i : Nat) (hi : i < h.nobj) (k : Str) (p : Rat) :
+    (h.add i k p).WF ∧ (h.add i k p).read i = cadd (h.read i) k p ∧
+      ∀ m, m ≠ i → (h.add i k p).read m = h.read m :=
+  ⟨wf_add h hw i hi k p, read_add_self h hw i k p, fun m hm => read_add_other h hw i m hm k p⟩
+
 /-! ## Per-species data -/
 
 /-- `get_isotope` on any well-formed table: `N = A − Z`, `e = Z + q`, `mass = M + q·mₑ`
@@ -218,6 +242,9 @@ example : expand exF = [(['O'], 2), (['H'], 11), (['C'], 3)] := by decide
 example : substanceOf (fun _ => true) (render exF) = some [(['O'], 2), (['H'], 11), (['C'], 3)] := by
   decide +kernel
 example : ∃ el ∈ liveTable, el.sym = ['C'] ∧ el.isos.length = 3 := by decide +kernel
+/-- the store hypotheses are satisfiable: two composites built from dicts in the empty store -/
+example : ((Heap.empty.new [(['H'], 2), (['O'], 1)]).new [(['H'], 1)]).read 0 = [(['H'], 2), (['O'], 1)] := by
+  decide +kernel
 /-- the hypotheses of the text-level theorems are satisfiable: `(O + H) * 2 + (C + H * 3) * 3` -/
 example : exF.spAll (fun s => SpeciesShape s ∧ (fun _ => true) s = true) := by
   have one : ∀ u : Char, isUp u = true → SpeciesShape [u] :=
